@@ -107,6 +107,8 @@ fn choose(rng: &mut Rng, st: St, h: &HistGen, k: &Knobs, just_replied: bool) -> 
             15 => Op::Seed(rng.next()),
             16 => Op::Flags(rng.chance(1, 2), rng.chance(1, 2)),
             17 => Op::Line("CONT".into()),
+            // a host break that arrives while idle (after a run ended, failed, was edited …): history like any other
+            18 if rng.chance(1, 2) => Op::Break,
             _ => Op::Line(immediate(rng, h, k)),
         },
     }
@@ -125,6 +127,7 @@ fn apply_history(s: &mut Sess, history: &[Op], ctx: &mut Ctx, count: bool) -> Re
                 Op::Break if before == St::Running && just_replied => ctx.count("fault.break_after_reply_before_consume"),
                 Op::Break if before == St::Running => ctx.count("fault.break@running"),
                 Op::Break if before == St::Awaiting => ctx.count("fault.break@awaiting"),
+                Op::Break if before == St::Idle => ctx.count("fault.break@idle"),
                 Op::Line(t) if before == St::Idle && t == "RUN" => ctx.count("fault.rerun_mid_session"),
                 Op::Replace => ctx.count("fault.new+replace"),
                 Op::Line(t) if before == St::Idle && numbered(t) => ctx.count("fault.edit"),
@@ -227,7 +230,7 @@ impl Prop for C10 {
     fn meta() -> Meta {
         Meta {
             level: "exploration",
-            rule: "Each run: a program from the C03/C07 grammar (INPUT, STOP on) is entered into interpreter A, followed by a PRNG-scheduled history of up to 60 protocol-legal host calls chosen in the live state: RUN (to completion, to failure, or broken at a random boundary incl. while awaiting input and between a reply and the tick that consumes it), immediate statements that assign, DIM, open FOR loops, GOSUB/GOTO into the program, READ, RESTORE, NEXT, RETURN, CONT, statements refused at the nesting cap (255-300 levels), calls failing inside a user function, NEW + re-entry, line edits/deletions, seeds, flag changes. Then A and a fresh B (given only the numbered lines, in order) get the same flags, seed, RUN, ticks and replies. Oracle: every record, request position, final error kind+line and the deep probe snapshot (variables, arrays incl. content hash, stacks, functions, data cursor, breakpoint, pending reply, RNG state) are equal. distinct_nontrivial = distinct history hashes among runs whose final RUN took >= 5 boundaries.",
+            rule: "Each run: a program from the C03/C07 grammar (INPUT, STOP on) is entered into interpreter A, followed by a PRNG-scheduled history of up to 60 protocol-legal host calls chosen in the live state: RUN (to completion, to failure, or broken at a random boundary incl. while awaiting input and between a reply and the tick that consumes it), host breaks taken while the interpreter is idle (they leave a pending breakpoint like any other), immediate statements that assign, DIM, open FOR loops, GOSUB/GOTO into the program, READ, RESTORE, NEXT, RETURN, CONT, statements refused at the nesting cap (255-300 levels), calls failing inside a user function, NEW + re-entry, line edits/deletions, seeds, flag changes. Then A and a fresh B (given only the numbered lines, in order) get the same flags, seed, RUN, ticks and replies. Oracle: every record, request position, final error kind+line and the deep probe snapshot (variables, arrays incl. content hash, stacks, functions, data cursor, breakpoint, pending reply, RNG state) are equal. distinct_nontrivial = distinct history hashes among runs whose final RUN took >= 5 boundaries.",
             real: &["abasic-core Interpreter (RUN / reset_runtime_state, breakpoint, pending input, data cursor, functions, stacks)"],
             stub: &["the host (history and final run schedule)"],
             assumptions: &["after NEW + replacement, B receives only the lines entered since (the replacement interpreter is fresh by definition)"],
@@ -240,6 +243,7 @@ impl Prop for C10 {
                 "reach.history_leaves_pending_reply",
                 "reach.history_leaves_variables",
                 "fault.break_after_reply_before_consume",
+                "fault.break@idle",
             ],
         }
     }
@@ -279,6 +283,7 @@ impl Prop for C10 {
             h.spare_lines.push(format!("{} {}", l.num + rng.below(3), body));
         }
         let mut a = Sess::new();
+        a.allow_idle_break = true;
         let mut order: Vec<usize> = (0..lines.len()).collect();
         rng.shuffle(&mut order);
         for i in order {
@@ -336,6 +341,7 @@ impl Prop for C10 {
 
     fn execute(c: &Case, ctx: &mut Ctx) -> Option<Violation> {
         let mut a = Sess::new();
+        a.allow_idle_break = true;
         let last_new = match apply_history(&mut a, &c.history, ctx, false) {
             Ok(l) => l,
             Err(v) => return Some(v),
